@@ -247,6 +247,34 @@ def check(run):
             v("comparison-ufunc", "np.isfinite", {}, "bool array", str(r.dtype))
     except Exception as e:
         v("supported-operation-raised", "np.isfinite", {}, "bool array", repr(e))
+    # element types: real, integer and single-precision grids obey the same spin rules (a real grid of non-zero spin is
+    # ordinary: e.g. the values of a spin-2 harmonic with m = 0), by every spelling
+    for dt in (np.float64, np.int64, np.float32, np.complex64):
+        for s1 in ((-2, 1, 3) if quick else range(-3, 4)):
+            n1 = 6 * abs(s1) + 3
+            raw = (np.arange(n1 * (n1 + 1)).reshape(n1, n1 + 1) % 7 + 1).astype(dt)
+            if np.issubdtype(dt, np.complexfloating):
+                raw = raw + 1j * raw[::-1]
+            try:
+                g1 = Grid(raw.copy(), spin_weight=s1)
+            except Exception as e:
+                v("valid-grid-rejected", "Grid.__new__", {"s": s1, "dtype": dt.__name__}, "Grid", repr(e))
+                continue
+            cases = [("conjugate-ufunc", lambda: np.conjugate(g1), -s1, np.conjugate(raw)), ("conjugate-method", lambda: g1.conjugate(), -s1, np.conjugate(raw)),
+                     ("conj-method", lambda: g1.conj(), -s1, np.conjugate(raw)), ("bar", lambda: g1.bar, -s1, np.conjugate(raw)),
+                     ("conjugate-inplace", lambda: g1.copy().conjugate(inplace=True), -s1, np.conjugate(raw)),
+                     ("absolute", lambda: np.absolute(g1), 0, np.absolute(raw)), ("square", lambda: np.square(g1), 2 * s1, np.square(raw)),
+                     ("negative", lambda: -g1, s1, -raw), ("g*g", lambda: g1 * g1, 2 * s1, raw * raw), ("g*gbar", lambda: g1 * g1.conjugate(), 0, raw * np.conjugate(raw)),
+                     ("g+g", lambda: g1 + g1, s1, raw + raw), ("power-int", lambda: g1 ** 2, 2 * s1, raw ** 2), ("scalar*g", lambda: 2 * g1, s1, 2 * raw)]
+            for name, op, sp, want in cases:
+                inp = {"s": s1, "dtype": dt.__name__, "grid": [n1, n1 + 1], "op": name}
+                run.gap_case("element-types", (dt.__name__, s1, name), f"dtype|{dt.__name__}")
+                try:
+                    r = op()
+                except Exception as e:
+                    v("supported-operation-raised", f"Grid.{name}", inp, f"Grid spin {sp}", repr(e))
+                    continue
+                expect_grid(f"Grid.{name}", inp, r, sp, want, (g1,))
     # memory layouts: the same grid values in Fortran order / as axis-moved or strided views
     from .. import layouts
     for s1, s2 in ([(0, 0), (1, -2), (2, 2)] if quick else [(a, b) for a in range(-2, 3) for b in range(-2, 3)]):
